@@ -139,32 +139,30 @@ pub fn c05(a: &Analysis) -> Vec<Violation> {
     let mut out = Vec::new();
     let quiet_end = a.ctx_gone.is_none() && !a.run_returned() && a.fully_consumed();
     // pings: k-th issued (first poll order) completes on the k-th PINGRESP
-    let mut pings: Vec<&OpView> = a.ops.values().filter(|o| matches!(o.spec, OpSpec::Ping) && o.first_poll.is_some()).collect();
+    let mut pings: Vec<&OpView> = a.ops.values().filter(|o| matches!(o.spec, OpSpec::Ping) && o.first_poll.is_some() && !locally_refused(o)).collect();
     pings.sort_by_key(|o| o.first_poll.unwrap());
     let pingresps: Vec<&InView> = a.inbound.iter().filter(|i| matches!(i.p.pkt, Some(Packet::Pingresp))).collect();
-    let cancelled_ping_before = |k: usize| pings[..k].iter().any(|p| p.cancelled.is_some());
+    // The k-th PINGREQ submitted (first-poll order; a ping whose future was dropped after its
+    // first poll has still been submitted and its PINGRESP is absorbed) pairs with the k-th
+    // PINGRESP.
     for (k, p) in pings.iter().enumerate() {
-        if locally_refused(p) {
+        if locally_refused(p) || p.cancelled.map(|c| p.ret_seq().map(|r| c < r).unwrap_or(true)).unwrap_or(false) && p.ret_seq().is_none() {
             continue;
         }
         if let Some(rs) = p.ret_seq() {
-            if p.outcome() != Some(&OpOutcome::Done) && a.ctx_gone.is_none() {
+            if p.outcome() != Some(&OpOutcome::Done) && a.ctx_gone.is_none() && !a.run_returned() {
                 out.push(v("C05", "C05/wrong-ack/ping", format!("ping op {} returned {:?}", p.idx, p.outcome())));
             }
-            // needs the k-th PINGRESP (unless earlier pings were cancelled, which shifts nothing
-            // in the library's FIFO but is outside this oracle)
-            if !cancelled_ping_before(k) {
-                match pingresps.get(k).and_then(|i| i.avail_seq) {
-                    Some(av) if av < rs => {}
-                    _ if p.outcome() == Some(&OpOutcome::Done) => out.push(v(
-                        "C05",
-                        "C05/ping-order",
-                        format!("ping op {} (issue #{k}) completed before PINGRESP #{k} was available", p.idx),
-                    )),
-                    _ => {}
-                }
+            match pingresps.get(k).and_then(|i| i.avail_seq) {
+                Some(av) if av < rs => {}
+                _ if p.outcome() == Some(&OpOutcome::Done) => out.push(v(
+                    "C05",
+                    "C05/ping-order",
+                    format!("ping op {} (PINGREQ #{k}) completed before PINGRESP #{k} was available", p.idx),
+                )),
+                _ => {}
             }
-        } else if quiet_end && p.cancelled.is_none() && !cancelled_ping_before(k) {
+        } else if quiet_end && p.cancelled.is_none() {
             if let Some(av) = pingresps.get(k).and_then(|i| i.avail_seq) {
                 out.push(v("C05", "C05/lost-completion/ping", format!("ping op {} never completed although PINGRESP #{k} arrived at {av}", p.idx)));
             }
@@ -432,6 +430,10 @@ fn expected_items(a: &Analysis, multi_ok: bool) -> BTreeMap<usize, Vec<(usize, M
     let mut exp: BTreeMap<usize, Vec<(usize, MessageDigest, bool)>> = BTreeMap::new();
     let mut unreleased: BTreeSet<u16> = BTreeSet::new();
     for i in &a.inbound {
+        // only what the client actually consumed counts (a connection may have been cut)
+        if i.avail_seq.is_none() || a.conns[i.p.conn].consumed < i.p.end {
+            continue;
+        }
         match &i.p.pkt {
             Some(Packet::Publish(p)) => {
                 let redelivery = p.qos == 2 && unreleased.contains(&p.pid.unwrap());
@@ -1463,6 +1465,8 @@ pub fn c17(a: &Analysis, sc: &Scenario) -> Vec<Violation> {
     for p in real_panics(a) {
         out.push(v("C17", format!("C17/panic/{}", panic_site(&p.2)), format!("{:?} panicked: {}", p.1, p.2)));
     }
+    // what is re-sent must be well-formed like everything else the client writes
+    out.extend(wire_wellformed(a, "C17"));
     for (c, elapsed) in resumes {
         let prev = c - 1;
         let old = &a.conns[prev];
